@@ -156,6 +156,7 @@ pub fn init_library(cfg: &RunCfg) {
     circ::verif::set_global_epoch(c, cfg.start_epoch as usize);
     circ::verif::set_knobs(cfg.max_objects.max(1) as usize, cfg.manual_interval.max(1) as usize);
     crate::payload::POP_POLICY.store(cfg.pop_policy as u8, SeqCst);
+    crate::interp::ORD_MODE.store(cfg.ord_mode as u8, SeqCst);
     crate::payload::DTOR_API.store(cfg.dtor_api as u8, SeqCst);
 }
 
